@@ -127,6 +127,10 @@ func c10R1Shapes(sem *Sem, allowed []string, rng *rand.Rand) []Req {
 		buildReq("OPTIONS", []string{a}, []string{"UNLISTED"}, nil, nil, nil),
 		buildReq("OPTIONS", []string{a}, []string{"GET"}, []string{listed}, nil, nil),
 		buildReq("OPTIONS", []string{a}, []string{"GET"}, []string{"x-unlisted"}, nil, nil),
+		// several ACRH field lines whose first line equals an earlier / later single-line request
+		buildReq("OPTIONS", []string{a}, []string{"GET"}, []string{listed, "x-unlisted"}, nil, nil),
+		buildReq("OPTIONS", []string{a}, []string{"GET"}, []string{listed, listed}, nil, nil),
+		buildReq("OPTIONS", []string{a}, []string{"GET"}, []string{"", listed}, nil, nil),
 		buildReq("OPTIONS", []string{a}, []string{"GET"}, []string{"authorization"}, nil, nil),
 		buildReq("OPTIONS", []string{a}, []string{"GET"}, nil, []string{"true"}, nil),
 		buildReq("OPTIONS", []string{"https://never-allowed.invalid"}, []string{"GET"}, nil, nil, nil),
@@ -139,10 +143,35 @@ func c10R1Shapes(sem *Sem, allowed []string, rng *rand.Rand) []Req {
 	return shapes
 }
 
+// c10Contexts: requests after which q is served again (see the second pass of the pair monitor).
+func c10Contexts(q Req, sem *Sem, allowed []string) []Req {
+	var out []Req
+	cut := q.clone()
+	changed := false
+	for k, v := range cut.Header {
+		if len(v) > 1 {
+			cut.Header[k] = v[:1]
+			changed = true
+		}
+	}
+	if changed {
+		out = append(out, cut)
+	}
+	names := sem.discreteHdrNames()
+	other := "x-listed-2"
+	if len(names) > 1 {
+		other = names[len(names)-1]
+	}
+	out = append(out,
+		buildReq("OPTIONS", []string{allowed[0]}, []string{"GET"}, []string{other}, nil, nil),
+		buildReq("GET", []string{allowed[0]}, nil, nil, nil, nil))
+	return out
+}
+
 func TestVerif_C10(t *testing.T) {
 	r := newRun(t, "C10")
-	r.Rule("C02 configuration product and PRNG origin-rich configurations x debug off/on x pre-set Vary values (none; unrelated names; names the middleware itself uses, such as Origin or one Access-Control-Request-* name, alone, combined or empty) x first requests of 20 shapes (no Origin; allowed / refused / malformed Origin; actual and non-CORS OPTIONS; preflights succeeding and failing at each step; PRNG hostile) " +
-		"x second requests with the same method that agree (same value lists) on every header named in the first response's Vary and differ elsewhere: systematically every unlisted header among Origin/ACRM/ACRH/ACRPN/Referer/X-Unrelated/Authorization/Cookie replaced by every value of its pool, plus PRNG multi-header mutants. " +
+	r.Rule("C02 configuration product and PRNG origin-rich configurations x debug off/on x pre-set Vary values (none; unrelated names; names the middleware itself uses, such as Origin or one Access-Control-Request-* name, alone, combined or empty) x first requests of 23 shapes (no Origin; allowed / refused / malformed Origin; actual and non-CORS OPTIONS; preflights succeeding and failing at each step; PRNG hostile) " +
+		"x second requests with the same method that agree (same value lists) on every header named in the first response's Vary and differ elsewhere: systematically every unlisted header among Origin/ACRM/ACRH/ACRPN/Referer/X-Unrelated/Authorization/Cookie replaced by every value of its pool, plus PRNG multi-header mutants; finally every first request once more, after everything the middleware answered in between (the pair (r, r) separated in time). " +
 		"evaluation = one pair; the oracle demands identical status, headers and body (constant inner handler) and that pre-set Vary values survive; non-trivial = pair whose second request differs from the first in Origin, ACRM, ACRH or ACRPN (distinct by hash)")
 	r.Assume("a cache keys on the method and on the request headers named in Vary, comparing field values as lists; second requests keep Vary-listed headers exactly as they are in the first request")
 
@@ -156,6 +185,24 @@ func TestVerif_C10(t *testing.T) {
 		mw.SetDebug(rc.Debug)
 		r1, r2 := expandReq(rc.R1), expandReq(rc.R2)
 		o1 := serveWithPreset(mw, rc.Preset, r1)
+		if reqString(r1) == reqString(r2) {
+			// a pair (r, r) separated in time: the deterministic first-pass shapes are served in between
+			sem := rc.Spec.Sem()
+			var allowed []string
+			for _, o := range allowedInstances(sem.Pats) {
+				allowed = append(allowed, o.String())
+			}
+			if len(allowed) == 0 {
+				allowed = []string{"https://example.com", "https://other.example.org"}
+			}
+			for _, q := range c10R1Shapes(sem, allowed, nil) {
+				serveWithPreset(mw, rc.Preset, q)
+			}
+			for _, ctx := range c10Contexts(r1, sem, allowed) {
+				c10Check(r, l, rc.Spec, mw, rc.Debug, rc.Preset, r1, r2, o1)
+				serveWithPreset(mw, rc.Preset, ctx)
+			}
+		}
 		c10Check(r, l, rc.Spec, mw, rc.Debug, rc.Preset, r1, r2, o1)
 		r.merge(l)
 		r.Finish(0)
@@ -203,9 +250,16 @@ func TestVerif_C10(t *testing.T) {
 				if pi > 0 && (l.Batch+d+pi)%4 != 0 && !r.Thor {
 					continue
 				}
-				for _, r1 := range c10R1Shapes(sem, allowed, rng) {
+				type firstAnswer struct {
+					q Req
+					o Obs
+				}
+				var firsts []firstAnswer
+				shapes := c10R1Shapes(sem, allowed, rng)
+				for _, r1 := range shapes {
 					l.cur = func() any { return c10Case{c, debug, preset, trimReq(r1), Req{}} }
 					o1 := serveWithPreset(mw, preset, r1)
+					firsts = append(firsts, firstAnswer{r1, o1})
 					// pre-set Vary values are preserved, in order
 					if !isSubsequence(preset, o1.get(hVary)) {
 						cfg := c.Config()
@@ -266,6 +320,22 @@ func TestVerif_C10(t *testing.T) {
 						if l.Batch%3000 == 11 && k == 0 && d == 0 && pi == 0 {
 							l.Sample("pair", c10Case{c, debug, preset, trimReq(r1), trimReq(r2)})
 						}
+					}
+				}
+				// second pass: the very same requests again, after everything else this middleware has answered in
+				// between (a cache would have served the stored first answers): the trivially agreeing pair (r, r)
+				// separated in time (lesson of seeded change C10-i: a verdict memo keyed on less than the Vary-listed headers)
+				// ... and directly after each of several context requests that could leave something behind: the request cut
+				// down to the first value of each of its multi-valued headers, a successful single-line preflight naming
+				// another listed header, an ordinary actual request (at least two of these contexts differ in whatever a
+				// request-keyed memo would hold)
+				for _, fa := range firsts {
+					c10Check(r, l, c, mw, debug, preset, fa.q, fa.q, fa.o)
+					l.counters["pairs_same_request_later"]++
+					for _, ctx := range c10Contexts(fa.q, sem, allowed) {
+						serveWithPreset(mw, preset, ctx)
+						c10Check(r, l, c, mw, debug, preset, fa.q, fa.q, fa.o)
+						l.counters["pairs_same_request_after_context"]++
 					}
 				}
 			}
